@@ -201,7 +201,7 @@ class Real:
                 self.dev[d] = True
                 import gc
                 Real.registrations += 1
-                if Real.registrations % 7 == 0:
+                if Real.registrations % 61 == 0:
                     gc.collect()
             elif kind == "regcli":
                 self.router.register_client(self.cli[op[1]])
